@@ -15,8 +15,12 @@ ASSUMPTIONS = [
   "aliasing clauses (caller's acquisition function, models and request data unchanged) are decided by deep comparison around every call, "
   "not by a theorem (a pure model cannot alias)",
   "the optimisers inside constant liar and search are arbitrary functions of the acquisition function they are handed (stubbed in the harness)",
-  "GP endpoint with qEI parallelism on a multitask request: the implementation falls back to the constant-liar optimiser without appending lies; "
-  "the theorem on pending points excludes that combination (see LEVEL_NOTE)",
+  "GP endpoint, 'their model' of the endpoint clause is the predictor of the acquisition function the optimiser is handed (every component of a sum "
+  "of GPs); the GPs under the failure model (constraint metrics, epsilon-constraint thresholds) get lies only under constant liar - under qEI "
+  "they stay as built (modelled: feed_failure_gp, C15_failure_model_gps; parallel EI with failures samples them at its pending set, the multitask "
+  "fall-back reaches the predictor only, as the constant-liar loop does for its own picks)",
+  "GP endpoint with qEI parallelism on a multitask request (parallel EI unavailable): the pending points are appended by append_lie_locations, so the "
+  "lie value is the worst value of the model's own data, not the lie value the view computes for constant liar (modelled and proved as such)",
 ]
 TRUSTED = ["tools/props/C15.py + tools/lib/c15_util.py: case generators, stub optimisers, deep-snapshot comparison, Q-literal printer",
            "Model/LiesCorr.v check function"]
@@ -26,7 +30,7 @@ LEVEL_TEXT = ("Coq theorems by induction over arbitrary operation sequences (sta
               "run against the real objects with every accessor output compared inside Coq, and the decidable forms of the invariants are "
               "evaluated on the implementation's own outputs")
 LEVEL_NOTE = ("Exact arithmetic over Q; immutability of caller-owned objects is a runtime deep comparison; the endpoint clause is proved for the "
-              "model of the wiring and checked on real endpoint calls with recording stubs; qEI+multitask drops pending points (modelled, excluded)")
+              "model of the wiring (all four parallelism x multitask combinations) and checked on real endpoint calls with recording stubs")
 TECHNIQUE = "Coq proof (state-machine invariants, induction over op sequences) on executable model + in-Coq differential correspondence"
 DESIGN_REF = "DESIGN.md section 7, C15"
 
@@ -321,7 +325,9 @@ def correspondence(ctx):
                    "locations (min/max/mean lie, wrong-dimension blocks), every accessor, predictions; Parzen histories of 3-14 ops over 10-13 "
                    "points (append lower/greater, clear, stash, recover of any earlier stash or explicit lists, malformed lies); constant liar "
                    "(n<=4, GP and GP-sum predictors, caches warm or cold) and search (n<=4) with state-dependent stub optimisers; real endpoint "
-                   "calls with recording stubs; non-trivial = an accessor read precedes a non-empty append (GP, sum), stash+recover+append "
+                   "calls with recording stubs (what the optimiser is handed, at the moment it is called): random requests plus a fixed sweep of "
+                   "the GP endpoint with qEI on multitask requests (1-3 pending points x failures x plain / augmented EI, failure models, sums "
+                   "of GPs) and its neighbours; non-trivial = an accessor read precedes a non-empty append (GP, sum), stash+recover+append "
                    "(Parzen), >=2 picks (loops); distinct by hash of the canonical input",
               samples=[dict(kind=k, input=i) for k, i, _ in meta[:3]], distribution=dist, disagreements=dis)
 
@@ -329,7 +335,9 @@ def correspondence(ctx):
 # ------------------------------------------------------------------------------------------ endpoint clause
 
 
-def gen_endpoint(rng, exact=False, endpoint=None):
+def gen_endpoint(rng, exact=False, endpoint=None, force=None):
+  """force: dict overriding the drawn options - tasks (bool), par, npend, nopt, ncon, failures ('none' | 'some'), num_to_sample"""
+  force = force or {}
   ep = endpoint or rng.choice(["gp", "gp", "gp", "spe", "search"])
   ncomp = rng.randint(1, 3)
   comps = []
@@ -364,12 +372,12 @@ def gen_endpoint(rng, exact=False, endpoint=None):
     if tuple(q) not in seen or tries > 200:     # small discrete domains: repeats are allowed once distinct rows run out
       seen.add(tuple(q))
       points.append(q)
-  npend = rng.choice([0, 1, 2, 3])
+  npend = force.get("npend", rng.choice([0, 1, 2, 3]))
   pending, points = points[n:n + npend], points[:n]
   if ep == "search":
     nopt, ncon = 0, rng.randint(1, 2)
   else:
-    nopt, ncon = rng.choice([1, 1, 2]), rng.choice([0, 0, 1])
+    nopt, ncon = force.get("nopt", rng.choice([1, 1, 2])), force.get("ncon", rng.choice([0, 0, 1]))
   nm = nopt + ncon + rng.choice([0, 1])
   values = [[float(rng.randint(-5, 9)) if exact else rng.gauss(0, 3) for _ in range(nm)] for _ in range(n)]
   idx = list(range(nm))
@@ -379,13 +387,20 @@ def gen_endpoint(rng, exact=False, endpoint=None):
   for c in con:
     col = sorted(v[c] for v in values)
     thr[c] = col[len(col) // 3]
-  tasks = [0.25, 1.0] if (ep != "search" and rng.random() < 0.25) else []
-  par = rng.choice(["constant_liar", "constant_liar", "qei"])
+  tasks = [0.25, 1.0] if (ep != "search" and force.get("tasks", rng.random() < 0.25)) else []
+  par = force.get("par", rng.choice(["constant_liar", "constant_liar", "qei"]))
+  failures = [rng.random() < 0.15 for _ in range(n)]
+  if force.get("failures") == "none":
+    failures = [False] * n
+  elif force.get("failures") == "some" and not any(failures):
+    failures[rng.randrange(n)] = failures[rng.randrange(n)] = True
+  # parallel EI proposes one point per call; where qEI falls back to the constant-liar optimiser (multitask) a batch is legitimate
+  nts = force.get("num_to_sample", 1 if (par == "qei" and not tasks) else rng.randint(1, 3))
   return dict(endpoint=ep, components=comps, points=points, values=values,
               value_vars=[[rng.choice([0.0, 0.0, 0.01])] * nm for _ in range(n)],
-              failures=[rng.random() < 0.15 for _ in range(n)], pending=pending,
+              failures=failures, pending=pending,
               objectives=[rng.choice(["maximize", "minimize"]) for _ in range(nm)], optimized=opt, constraint=con, thresholds=thr,
-              budget=n if ep == "spe" else n * rng.choice([1, 1, 2, 4, 10]), num_to_sample=1 if par == "qei" else rng.randint(1, 3),
+              budget=n if ep == "spe" else n * rng.choice([1, 1, 2, 4, 10]), num_to_sample=nts,
               parallelism=par, task_options=tasks, task_costs=[rng.choice(tasks) for _ in range(n)] if tasks else [],
               pending_task_costs=[rng.choice(tasks) for _ in range(npend)] if tasks else [], seed=rng.randrange(2 ** 31))
 
@@ -394,30 +409,62 @@ def cube_bounds(inp):
   return [float(min(c["elements"])) for c in inp["components"]], [float(max(c["elements"])) for c in inp["components"]]
 
 
+def qei_fallback_sweep(rng, exact):
+  """The GP endpoint where qEI is requested but parallel EI cannot be used (multitask): 1-3 pending points x failures / none x
+  (optimised, constraint) metric counts - plain / augmented EI, EI with failure models (constraint metrics, epsilon constraint), sums of
+  GPs (two optimised metrics in the convex-combination phase; the budget is drawn, so three draws each) - plus the neighbours of that
+  branch: the same request without tasks (parallel EI), without pending points, and under constant liar."""
+  out = []
+  for npend in (1, 2, 3):
+    for fl in ("none", "some"):
+      for nopt, ncon in ((1, 0), (1, 1), (1, 2), (2, 0), (2, 0), (2, 0), (2, 1)):
+        out.append(gen_endpoint(rng, exact=exact, endpoint="gp",
+                                force=dict(tasks=True, par="qei", npend=npend, nopt=nopt, ncon=ncon, failures=fl)))
+  for tasks, par, npend in ((False, "qei", 2), (True, "qei", 0), (True, "constant_liar", 2), (False, "qei", 0)):
+    for nopt, ncon in ((1, 0), (1, 1), (2, 0)):
+      out.append(gen_endpoint(rng, exact=exact, endpoint="gp", force=dict(tasks=tasks, par=par, npend=npend, nopt=nopt, ncon=ncon)))
+  return out
+
+
+def endpoint_tag(inp):
+  return f"endpoint:{inp['endpoint']}:{inp['parallelism']}" + (":multitask" if inp["task_options"] else "")
+
+
 def endpoint_cases(ctx, n):
   cases, meta, dis = [], [], []
-  for _ in range(n):
-    inp = gen_endpoint(ctx.rng, exact=True)
+  inputs = qei_fallback_sweep(ctx.rng, True) + [gen_endpoint(ctx.rng, exact=True) for _ in range(n)]
+  for inp in inputs:
     r = U.run_endpoint(inp)
-    tagk = f"endpoint:{inp['endpoint']}:{inp['parallelism']}" + (":multitask" if inp["task_options"] else "")
+    tagk = endpoint_tag(inp)
     if r["error"] or not r["request_unchanged"]:
       dis.append(dict(what=f"C15 endpoint call {tagk}: " + (r["error"] or f"request data modified at {r.get('request_diff')}"), kind="endpoint",
                       input=inp, observed=C.jsonable({k: v for k, v in r.items() if k in ("error", "trace", "request_diff")})))
       continue
     pend_t, pend = U.expected_pending(inp, True), U.expected_pending(inp, False)
     qei = inp["parallelism"] == "qei"
+    af = r["af"]
     for b in r["gp_builds"]:
-      if r["af"] is None and qei:
+      if af is None and qei:
         continue
       if not isinstance(b["lie"], float):
         continue
       d = len(b["pts"][0])
-      af = r["af"] or dict(qei=False, pending_set=None)
-      term = (f"CFeedGp {C.blit(qei)} {C.blit(bool(inp['task_options']))} {hist(d, b['pts'], b['vals'], b['noise'])} {pts(pend_t)} "
-              f"{C.qlit(b['lie'])} {hist(d, b['data']['pts'], b['data']['vals'], b['data']['noise'])} "
-              f"{pts(af['pending_set'] or [])} {C.blit(af['qei'])}")
+      # the role of this GP in what the optimiser was handed, and its data AT THAT MOMENT (not when it was built)
+      if af is not None and b["id"] in af["predictor_ids"]:
+        objective, seen = True, af["predictor_data"][af["predictor_ids"].index(b["id"])]
+      elif af is not None and b["id"] in af["failure_ids"]:
+        objective, seen = False, af["failure_data"][af["failure_ids"].index(b["id"])]
+      else:                       # the search endpoint (its failure-model GPs), or a GP the optimiser is not handed: as built
+        objective, seen = False, b["data"]
+      afd = af or dict(qei=False, pending_set=None)
+      term = (f"CFeedGp {C.blit(qei)} {C.blit(bool(inp['task_options']))} {C.blit(objective)} {hist(d, b['pts'], b['vals'], b['noise'])} "
+              f"{pts(pend_t)} {C.qlit(b['lie'])} {hist(d, seen['pts'], seen['vals'], seen['noise'])} "
+              f"{pts(afd['pending_set'] or [])} {C.blit(afd['qei'])}")
       cases.append(term)
-      meta.append((tagk + ":gp-model", inp, dict(build=b, af=r["af"])))
+      meta.append((tagk + (":gp-model" if objective else ":failure-gp") + (":pending" if pend_t else ""), inp, dict(build=b, af=af)))
+    if af is not None and af["multitask_wrapper"] and not af["wrapper_sees_predictor"]:
+      dis.append(dict(what=f"C15 endpoint call {tagk}: the cost-scaled wrapper and the acquisition function it wraps hold different predictors",
+                      kind="endpoint", input=inp, observed=C.jsonable(af)))
     if r["parzen"] and "at_sampling" in r["parzen"]:
       d = len(r["parzen"]["formed"]["lower"][0])
       cases.append(f"CFeedPz {pz_lit(d, r['parzen']['formed'])} {pts(pend)} {pz_lit(d, r['parzen']['at_sampling'])}")
@@ -430,9 +477,6 @@ def endpoint_cases(ctx, n):
 
 
 # ------------------------------------------------------------------------------------------ independent oracle
-
-
-QEI_MULTITASK_SIGNATURE = "C15:endpoint:gp-qei-multitask-pending-dropped"
 
 
 def _fail(kind, inp, what, observed, expected, sig=None):
@@ -619,14 +663,30 @@ def oracle_endpoint(inp):
       if not set(r["af"]["predictor_ids"]) <= built or not all(d["pts"][-k:] == pend_t for d in r["af"]["predictor_data"]):
         return _fail(kind, inp, "acquisition function's model does not hold the pending points", r["af"]["predictor_data"], pend_t)
   if ep == "gp" and qei:
+    # what the optimiser is handed must account for the pending points: parallel EI with exactly them as its pending set, or (where
+    # parallel EI is not used: multitask) a model whose data end with them as lies - the fixed lie noise, and each model's own worst
+    # (largest: the models minimise) value
     af = r["af"]
-    fed = af is not None and af["qei"] and af["pending_set"] == pend_t
-    if not fed:
-      what = ("qei on a multitask request: pending points reach neither lies nor a parallel-EI pending set" if mt
-              else "pending points not given to parallel EI")
-      return _fail(kind, inp, what, dict(af=af and {x: af[x] for x in ("qei", "af_class", "pending_set")},
-                                         model_points=af and [len(d["pts"]) for d in af["predictor_data"]]), pend_t,
-                   sig=QEI_MULTITASK_SIGNATURE if mt else None)
+    shown = af and dict({x: af[x] for x in ("qei", "af_class", "pending_set")}, model_points=[len(d["pts"]) for d in af["predictor_data"]],
+                        model_tails=[dict(pts=d["pts"][-k:], vals=d["vals"][-k:], noise=d["noise"][-k:]) for d in af["predictor_data"]])
+    if af is None:
+      return _fail(kind, inp, "no acquisition function reached an optimiser", None, "an optimiser call")
+    if af["qei"]:
+      if af["pending_set"] != pend_t:
+        return _fail(kind, inp, "pending points not given to parallel EI", shown, pend_t)
+    else:
+      built = {b["id"]: len(b["pts"]) for b in r["gp_builds"]}      # rows each model was built from (a pending point may repeat an observed one)
+      for gid, dat in zip(af["predictor_ids"], af["predictor_data"]):
+        n_in = built.get(gid, len(dat["pts"]) - k)
+        if n_in < 1 or len(dat["pts"]) != n_in + k or dat["pts"][n_in:] != pend_t:
+          return _fail(kind, inp, "pending points reach neither the model's data (as lies) nor a parallel-EI pending set", shown,
+                       dict(tail_points=pend_t, or_pending_set=pend_t))
+        if dat["noise"][n_in:] != [1e-12] * k or not len(dat["vals"]) == len(dat["noise"]) == len(dat["pts"]):
+          return _fail(kind, inp, "pending points in the model's data do not carry the lie noise", shown, dict(noise=1e-12))
+        if dat["vals"][n_in:] != [max(dat["vals"][:n_in])] * k:
+          return _fail(kind, inp, "lie value is not the model's worst observed value", dat["vals"][n_in:], max(dat["vals"][:n_in]))
+      if not af["wrapper_sees_predictor"]:
+        return _fail(kind, inp, "the cost-scaled wrapper does not hold the model that received the lies", shown, "one predictor")
   if ep == "spe" and r["parzen"] and "at_sampling" in r["parzen"]:
     f, a = r["parzen"]["formed"], r["parzen"]["at_sampling"]
     if a["greater"] != f["greater"] + pend or a["lower"] != f["lower"] or a["greater_lies"] != pend or a["lower_lies"] != []:
@@ -672,8 +732,8 @@ def search(ctx, hints, broken):
       fails.append(r)
       if len(fails) >= 4:
         break
-  for _ in range(ctx.n(80, 500)):
-    inp = gen_endpoint(rng)
+  # every run: the branch where qEI falls back to the constant-liar optimiser (several pending points, failures, failure models, sums)
+  for inp in qei_fallback_sweep(rng, False) + [gen_endpoint(rng) for _ in range(ctx.n(80, 500))]:
     n += 1
     r = oracle("endpoint", inp)
     if r and r["signature"] not in sigs:
